@@ -114,8 +114,8 @@ Proof.
 Qed.
 
 Ltac otype_cases o Hwf :=
-  let H := fresh "H" in
-  destruct (wf_cases o Hwf) as [H|[H|[H|[H|[H|[H|H]]]]]]; destruct H as [?Ho ?Hc]; rewrite ?Ho, ?Hc in *.
+  let H := fresh "H" in let Hot := fresh "Hot" in let Hcl := fresh "Hcl" in
+  destruct (wf_cases o Hwf) as [H|[H|[H|[H|[H|[H|H]]]]]]; destruct H as [Hot Hcl]; rewrite ?Hot, ?Hcl in *.
 
 Lemma find_obj_in : forall s u o, find_obj s u = Some o -> In o s.
 Proof. induction s as [|a s IH]; simpl; intros u o H; try discriminate.
@@ -222,7 +222,7 @@ Ltac multi_branch n :=
 
 Ltac pair_split Hp :=
   let H := fresh "H" in
-  destruct (pair_cases _ _ Hp) as [H|[H|[H|[H|[H|[H|H]]]]]]; destruct H as [?Ho ?Hc].
+  destruct (pair_cases _ _ Hp) as [H|[H|[H|[H|[H|[H|H]]]]]]; destruct H as [Ho Hc].
 
 Lemma set_attribute_sites : forall t n r vals,
   pair_ok (t_otype t) (t_cls t) -> find_rule n = Some r -> mem_z (t_otype t) (ar_object_types r) = true ->
@@ -354,4 +354,162 @@ Proof.
       - intros s0 [n [_ [[_ Hs0]|[_ Hs0]]]]; subst s0; left; vm_compute; reflexivity.
       - unfold pair_ok. rewrite H1, H2. auto. }
     destruct sec; apply Hs; reflexivity.
+Qed.
+
+(* ---- the handlers that only read attributes every stored class has *)
+Ltac rd_present := apply ok_rd_present; [vm_compute; reflexivity|].
+
+Lemma ok_h_activate : forall op cr s u, wf_store s -> sites_ok (allowed op cr) (h_activate s u).
+Proof. intros. unfold h_activate. apply ok_with_obj; auto. intros o Ho. otype_cases o Ho; rd_present; crunch. Qed.
+Lemma ok_h_revoke : forall op cr s u c, wf_store s -> sites_ok (allowed op cr) (h_revoke s u c).
+Proof. intros. unfold h_revoke. destruct c; simpl; auto. apply ok_with_obj; auto. intros o Ho. otype_cases o Ho; rd_present; crunch. Qed.
+Lemma ok_h_destroy : forall op cr s u, wf_store s -> sites_ok (allowed op cr) (h_destroy s u).
+Proof. intros. unfold h_destroy. apply ok_with_obj; auto. intros o Ho. crunch. Qed.
+
+Lemma ok_h_crypto_op : forall op cr func want bit s u p, wf_store s -> crypto_observed cr ->
+  (want = OT_SYMMETRIC_KEY \/ want = OT_PRIVATE_KEY \/ want = OT_PUBLIC_KEY) ->
+  sites_ok (allowed op cr) (h_crypto_op func want bit s cr u p).
+Proof.
+  intros op cr func want bit s u p Hs Hc Hw. unfold h_crypto_op. apply ok_with_obj; auto. intros o Ho.
+  destruct (negb p); simpl; auto.
+  otype_cases o Ho; rd_present;
+    (destruct Hw as [Hw|[Hw|Hw]]; subst want; vm_compute (negb (_ =? _)); cbv iota; simpl; auto);
+    rd_present; crunch; rd_present; crunch; rd_present; apply ok_crypto; simpl; auto.
+Qed.
+
+(* ---- MAC *)
+Ltac finish := simpl; auto; try (apply ok_crypto; simpl; auto); try (left; vm_compute; reflexivity).
+Ltac crunch2 :=
+  repeat match goal with
+         | |- sites_ok _ (match (match ?y with _ => _ end) with _ => _ end) => destruct y
+         | |- sites_ok _ (match (if ?y then _ else _) with _ => _ end) => destruct y
+         | |- sites_ok _ (match ?x with _ => _ end) => destruct x
+         | |- sites_ok _ (if ?c then _ else _) => destruct c
+         end; finish.
+
+Lemma ok_h_mac : forall cr s u a d, wf_store s -> crypto_observed cr -> sites_ok (allowed "MAC" cr) (h_mac s cr u a d).
+Proof.
+  intros cr s u a d Hs Hc. unfold h_mac. apply ok_with_obj; auto. intros o Ho.
+  otype_cases o Ho; unfold rd, rd_or; field_compute; cbv iota;
+    replace (assoc_s _ class_is_key) with (assoc_s (so_class o) class_is_key) by (rewrite Hcl; reflexivity);
+    rewrite Hcl; match goal with |- context[assoc_s ?c class_is_key] =>
+      let b := eval vm_compute in (assoc_s c class_is_key) in replace (assoc_s c class_is_key) with b by (vm_compute; reflexivity) end;
+    cbv iota; destruct a; crunch2.
+Qed.
+
+(* ---- computing closed sub-terms *)
+Ltac compute_eqb :=
+  repeat match goal with
+         | |- context[Z.eqb ?a ?b] =>
+             let r := eval vm_compute in (Z.eqb a b) in
+             match r with
+             | true => change (Z.eqb a b) with true
+             | false => change (Z.eqb a b) with false
+             end
+         end;
+  repeat match goal with
+         | |- context[mem_z ?a ?l] =>
+             let r := eval vm_compute in (mem_z a l) in
+             match r with
+             | true => change (mem_z a l) with true
+             | false => change (mem_z a l) with false
+             end
+         end;
+  cbv [negb]; cbv iota.
+Ltac compute_fields :=
+  repeat match goal with
+         | |- context[build_core_fields ?a] =>
+             let r := eval vm_compute in (build_core_fields a) in change (build_core_fields a) with r
+         end;
+  repeat match goal with
+         | |- context[assoc_z ?a core_has_key_block] =>
+             let r := eval vm_compute in (assoc_z a core_has_key_block) in change (assoc_z a core_has_key_block) with r
+         end;
+  unfold rd_all, rd, rd_or, unguarded; field_compute; cbv iota.
+
+(* ---- Get *)
+Lemma ok_h_get : forall cr s u kft comp w, wf_store s -> crypto_observed cr ->
+  sites_ok (allowed "GET" cr) (h_get s cr u kft comp w).
+Proof.
+  intros cr s u kft comp w Hs Hc. unfold h_get. destruct comp; simpl; auto. apply ok_with_obj; auto. intros o Ho.
+  unfold build_core.
+  destruct w as [w|];
+    [ destruct (w_eki w) as [[ku kp]|];
+      [ destruct (lookup s ku) as [| |k] eqn:Ek; [ | | pose proof (lookup_wf _ _ _ Hs Ek) as Hk; otype_cases k Hk ] | ] | ];
+    otype_cases o Ho; compute_fields; compute_eqb; crunch2.
+Qed.
+
+(* ---- GetAttributes / GetAttributeList *)
+Lemma attrs_listed_total : forall v o n, exists k, attrs_listed v o n = inr k.
+Proof.
+  intros v o n. unfold attrs_listed. destruct (q_supported v n) eqn:E; simpl; eauto.
+  destruct (supported_has_rule _ _ E) as [r Hr].
+  unfold q_deprecated, q_applicable. rewrite !(q_some _ _ _ _ _ Hr).
+  destruct (match ar_version_deprecated r with Some d => ver_ge v d | None => false end); eauto.
+  destruct (mem_z (so_otype o) (ar_object_types r)); eauto.
+  destruct (attr_field n); eauto. destruct (has_field (so_class o) s); eauto. destruct (attr_list_len o n); eauto.
+Qed.
+
+Lemma get_attrs_count_total : forall v o names, exists k, get_attrs_count v o names = inr k.
+Proof.
+  induction names as [|n t IH]; simpl; eauto.
+  destruct (attrs_listed_total v o n) as [k Hk]. rewrite Hk. destruct IH as [m Hm]. rewrite Hm. eauto.
+Qed.
+
+Lemma ok_h_get_attributes : forall cr v s u names il, wf_store s ->
+  sites_ok (allowed "GET_ATTRIBUTES" cr) (h_get_attributes v s u names il).
+Proof.
+  intros. unfold h_get_attributes. apply ok_with_obj; auto. intros o Ho.
+  destruct (get_attrs_count_total v o (match names with [] => all_attribute_names | _ => names end)) as [k Hk]. rewrite Hk.
+  otype_cases o Ho; rd_present; unfold unguarded; crunch2.
+Qed.
+
+Lemma ok_h_get_attribute_list : forall op cr v s u, wf_store s ->
+  sites_ok (allowed op cr) (h_get_attributes v s u [] true).
+Proof.
+  intros. unfold h_get_attributes. apply ok_with_obj; auto. intros o Ho.
+  destruct (get_attrs_count_total v o all_attribute_names) as [k Hk]. simpl negb. cbv iota. rewrite Hk.
+  otype_cases o Ho; rd_present; simpl; auto.
+Qed.
+
+(* ---- DeriveKey *)
+Lemma derive_objects_ok : forall s uids, wf_store s ->
+  match derive_objects s uids with
+  | inl c => c = Done
+  | inr l => Forall wf_sobj l /\ (uids <> [] -> l <> [])
+  end.
+Proof.
+  intros s uids Hs. induction uids as [|u t IH]; simpl.
+  - split; [constructor | congruence].
+  - destruct (lookup s (Some u)) as [| |o] eqn:E; [exact eq_refl | exact eq_refl | ].
+    pose proof (lookup_wf _ _ _ Hs E) as Ho.
+    otype_cases o Ho; unfold rd; field_compute; cbv iota; compute_eqb; auto;
+      destruct (has_bit (so_mask o) UM_DERIVE_KEY); cbv iota; auto;
+      destruct (derive_objects s t) as [c|l]; auto; destruct IH as [IH1 IH2]; split; [constructor; auto | discriminate].
+Qed.
+
+Ltac walk :=
+  repeat match goal with
+         | |- sites_ok _ (match (match ?y with _ => _ end) with _ => _ end) => destruct y
+         | |- sites_ok _ (match (if ?y then _ else _) with _ => _ end) => destruct y
+         | |- sites_ok _ (match ?x with _ => _ end) => destruct x
+         | |- sites_ok _ (if ?c then _ else _) => destruct c
+         | |- sites_ok _ (crypto _ _) => apply ok_crypto; [assumption|]
+         | |- sites_ok _ (set_attributes _ _) =>
+             apply set_attributes_not_cert; [reflexivity | first [assumption | apply filter_known; assumption] | discriminate]
+         | |- sites_ok _ (Crash _) => simpl; left; vm_compute; reflexivity
+         | |- sites_ok _ Done => exact I
+         | |- sites_ok _ Go => exact I
+         end.
+
+Lemma ok_h_derive_key : forall v s cr otype uids hd hp ta, wf_store s -> crypto_observed cr -> uids <> [] ->
+  sites_ok (allowed "DERIVE_KEY" cr) (h_derive_key v s cr otype uids hd hp ta).
+Proof.
+  intros v s cr otype uids hd hp ta Hs Hc Hu. unfold h_derive_key.
+  pose proof (proc_template_ok v ta) as Hd. destruct (proc_template v ta) as [d|o]; [|subst; simpl; auto].
+  destruct (negb (mem_z otype [OT_SYMMETRIC_KEY; OT_SECRET_DATA])); simpl; auto.
+  pose proof (derive_objects_ok s uids Hs) as Hl. destruct (derive_objects s uids) as [c|l]; [subst; simpl; auto|].
+  destruct Hl as [Hl1 Hl2]. destruct l as [|k0 others]; [exfalso; apply Hl2; auto|].
+  inversion Hl1 as [|? ? Hk0 ?]; subst.
+  otype_cases k0 Hk0; unfold rd, unguarded; field_compute; cbv iota; walk.
 Qed.
